@@ -208,6 +208,30 @@ static void print_oneline(const char *tag, long i, uint64_t seed, const struct o
 	fflush(stdout);
 }
 
+/* Does this violating run count towards the batch's early stop?  With IVSIM_OWNER=<property> only
+ * violations the running check owns do; runs that trip another property's oracle are still reported
+ * (as notes) but do not cut the exploration short. */
+static int counts_for_owner(const struct outcome *o)
+{
+	const char *own = getenv("IVSIM_OWNER"), *l;
+	size_t n;
+
+	if (own == NULL || !*own)
+		return 1;
+	n = strlen(own);
+	for (l = o->text; l && *l; ) {
+		if (l[0] == 'V' && l[1] == ' ') {
+			const char *id = l + 2;
+			if ((!strncmp(id, own, n) && id[n] == '.') || !strncmp(id, "ANY.", 4) || !strncmp(id, "SIM.", 4))
+				return 1;
+		}
+		l = strchr(l, '\n');
+		if (l)
+			l++;
+	}
+	return 0;
+}
+
 static double now_s(void)
 {
 	struct timespec t;
@@ -256,7 +280,7 @@ static int cmd_batch(int argc, char **argv, int enumerate)
 			if (OUT.status == 1) {
 				snprintf(path, sizeof(path), "%s/cand-%s-%" PRIu64 ".plan", outdir, prop, seed);
 				write_replay(&PLN, &OUT, path);
-				nviol++;
+				nviol += counts_for_owner(&OUT);
 			}
 			print_oneline("RUN", i, seed, &OUT, "");
 			if (nviol >= 20)
